@@ -323,11 +323,13 @@ func (t *taskManager) submit(tasks []*task) error {
 	}
 	for _, currentTask := range tasks {
 		t.num += 1
+		verifhook.EvP("tm.submit", t, currentTask.nodeKey)
 		verifhook.Spawn("tm.exec")
 		go t.executor(currentTask)
 	}
 	if syncTask != nil {
 		t.num += 1
+		verifhook.EvP("tm.submit", t, syncTask.nodeKey)
 		t.executor(syncTask)
 	}
 	return nil
